@@ -49,24 +49,25 @@ def sh(cmd, **kw):
     return subprocess.run(cmd, stdout=subprocess.PIPE, stderr=subprocess.STDOUT, text=True, **kw)
 
 
-def build_harness(ctx, tags='verif'):
+def build_harness(ctx, tags='verif', race=False):
     """Build the harness against /repo's current working tree."""
     with _lock:
-        return _build_harness(ctx, tags)
+        return _build_harness(ctx, tags, race)
 
 
-def _build_harness(ctx, tags):
-    if tags in ctx.harness:
-        return ctx.harness[tags]
+def _build_harness(ctx, tags, race=False):
+    key = tags + ('+race' if race else '')
+    if key in ctx.harness:
+        return ctx.harness[key]
     src = ctx.path('harness-src')
     if not os.path.isdir(src):
         shutil.copytree(os.path.join(VERIF, 'harness'), src)
         shutil.copy(os.path.join(REPO, 'go.sum'), os.path.join(src, 'go.sum'))
-    out = ctx.path('harness-' + tags.replace(',', '-'))
-    r = sh(['go', 'build', '-tags', tags, '-o', out, '.'], cwd=src, env=GOENV)
+    out = ctx.path('harness-' + key.replace(',', '-').replace('+', '-'))
+    r = sh(['go', 'build'] + (['-race'] if race else []) + ['-tags', tags, '-o', out, '.'], cwd=src, env=GOENV)
     if r.returncode != 0:
         raise Infra('harness build failed (tags %s):\n%s' % (tags, r.stdout[-3000:]))
-    ctx.harness[tags] = out
+    ctx.harness[key] = out
     return out
 
 
